@@ -65,6 +65,10 @@ theorem nulled_some (ys : List Val) : nulled (ys.map some) = ys := by
   | nil => rfl
   | cons y r ih => rw [List.map_cons, nulled_cons, ih]; rfl
 
+theorem presentOf_map_some (xs : List Val) :
+    presentOf (xs.map some) = xs.filter (fun v => !isNull v) := by
+  rw [← present_nulled, nulled_some]
+
 /-! ### `$min` / `$max`: `bson_compare` is the BSON order wherever no reason applies -/
 
 theorem boolNumClash_comm (a b : Val) : boolNumClash a b = boolNumClash b a := by
@@ -147,33 +151,40 @@ theorem acc_strictReasons_minmax (k : String) (hk : k = "$min" ∨ k = "$max")
   rcases hk with rfl | rfl <;>
     simp [strictReasons, arithOps]
 
-/-- the grouping operator on the operand values (a missing one read as null) computes what the
-    rules define -/
+/-- `$sum` / `$avg`: the grouping operator on the operand values (a missing one read as null) is
+    what the rules define — for every list of values, no hypothesis -/
+theorem sumavg_eq (k : String) (hk : k = "$sum" ∨ k = "$avg") (vs : List (Option Val)) :
+    groupingList k (nulled vs) = accS k vs := by
+  rcases hk with rfl | rfl <;> simp [accS, groupingList, numsOfNB_nulled, sumAll_eq]
+
+/-- `$min` / `$max`: likewise wherever no reason applies to a comparison between two of the
+    values that are neither null nor missing -/
+theorem minmax_eq (k : String) (hk : k = "$min" ∨ k = "$max") (vs : List (Option Val))
+    (hr : pairwiseReasons (presentOf vs) = []) : groupingList k (nulled vs) = accS k vs := by
+  have hns : ¬ k = "$sum" := by rcases hk with rfl | rfl <;> decide
+  have hna : ¬ k = "$avg" := by rcases hk with rfl | rfl <;> decide
+  have hdec : (decide (k = "$min") || decide (k = "$max")) = true := by
+    rcases hk with rfl | rfl <;> decide
+  simp only [accS, groupingList, hns, hna, if_false, present_nulled, hdec, if_true]
+  cases hp : presentOf vs with
+  | nil => rfl
+  | cons y r =>
+    rw [hp] at hr
+    exact extremum_pure (decide (k = "$max")) r y (pairwise_of_reasons _ hr)
+
+theorem acc_eq (k : String) (hk : k = "$sum" ∨ k = "$avg" ∨ k = "$min" ∨ k = "$max")
+    (vs : List (Option Val)) (hr : strictReasons k vs = []) :
+    groupingList k (nulled vs) = accS k vs := by
+  rcases hk with h | h | h | h
+  · exact sumavg_eq k (Or.inl h) vs
+  · exact sumavg_eq k (Or.inr h) vs
+  · rw [acc_strictReasons_minmax k (Or.inl h)] at hr; exact minmax_eq k (Or.inl h) vs hr
+  · rw [acc_strictReasons_minmax k (Or.inr h)] at hr; exact minmax_eq k (Or.inr h) vs hr
+
 theorem acc_pure (k : String) (hk : k = "$sum" ∨ k = "$avg" ∨ k = "$min" ∨ k = "$max")
     (vs : List (Option Val)) (hr : strictReasons k vs = []) (w : Val) (hs : accS k vs = .ok w) :
     groupingList k (nulled vs) = .ok w := by
-  rcases hk with rfl | rfl | hk
-  · simpa [accS, groupingList, numsOfNB_nulled, sumAll_eq] using hs
-  · simpa [accS, groupingList, numsOfNB_nulled, sumAll_eq] using hs
-  · have hpw := acc_strictReasons_minmax k hk vs
-    rw [hpw] at hr
-    have hm : (k = "$min" || k = "$max") = true := by rcases hk with rfl | rfl <;> decide
-    have hns : ¬ k = "$sum" := by rcases hk with rfl | rfl <;> decide
-    have hna : ¬ k = "$avg" := by rcases hk with rfl | rfl <;> decide
-    have hm' : (k = "$min" ∨ k = "$max") := hk
-    simp only [accS, hns, hna, if_false] at hs
-    simp only [groupingList, hns, hna, if_false, present_nulled]
-    have hdec : (decide (k = "$min") || decide (k = "$max")) = true := by
-      rcases hk with rfl | rfl <;> decide
-    simp only [hdec, if_true] at hs ⊢
-    cases hp : presentOf vs with
-    | nil => simpa [hp] using hs
-    | cons y r =>
-      rw [hp] at hr
-      simp only [hp] at hs
-      have := extremum_pure (decide (k = "$max")) r y (pairwise_of_reasons _ hr)
-      simp only [this]
-      exact hs
+  rw [acc_eq k hk vs hr, hs]
 
 /-! ### `{$op: [operands]}` -/
 
@@ -182,29 +193,36 @@ theorem acc_mode_arr (k : String) (hk : k = "$sum" ∨ k = "$avg" ∨ k = "$min"
   rcases hk with rfl | rfl | rfl | rfl <;>
     simp [mode, dateOps, datePartOps, wholeOps, unaryArithOps, groupingOps]
 
-theorem acc_case (c : Ctx) (hign : c.ign = true) (k : String)
+/-- `{$op: [e₁, …, eₙ]}`: every operand is evaluated (a missing one read as null), then the
+    operator ranges over the values; an error of the rules' arithmetic (a sum that is not an exact
+    double) is the same error -/
+theorem acc_list_eval (c : Ctx) (hign : c.ign = true) (k : String)
     (hk : k = "$sum" ∨ k = "$avg" ∨ k = "$min" ∨ k = "$max")
     (xs : List Val) (vs : List (Option Val)) (h1 : xs.map (eval c) = vs.map .ok)
-    (hr : strictReasons k vs = []) (r : Option Val) (hs : applyStrict k vs = .ok r) :
-    eval c (.doc [(k, .arr xs)]) = .ok r := by
+    (hr : strictReasons k vs = []) :
+    eval c (.doc [(k, .arr xs)]) = (accS k vs).map some := by
   have hm := acc_mode_arr k hk xs
   have har : arityErr k xs.length = none := by
     rcases hk with rfl | rfl | rfl | rfl <;> simp [arityErr, binaryArithOps, comparisonOps]
   have hl : listOps.contains k = true := by rcases hk with rfl | rfl | rfl | rfl <;> decide
   have hpm : nullOnMissing true k = true := by rcases hk with rfl | rfl | rfl | rfl <;> decide
   have hcls : classify k = .project := by rcases hk with rfl | rfl | rfl | rfl <;> decide
-  have hap : applyStrict k vs = (accS k vs).map some := by
-    rcases hk with rfl | rfl | rfl | rfl <;> simp [applyStrict, accOps, datePartOps]
-  rw [hap] at hs
-  cases h2 : accS k vs with
-  | error e => simp [h2, Except.map] at hs
-  | ok w =>
-    simp [h2, Except.map] at hs; subst hs
-    have hp := acc_pure k hk vs hr w h2
-    rw [eval_list c k xs .project hcls (by simp) (by simp) (by simp) hm har hl]
-    rw [hign, hpm, evalList_ok c true xs vs h1, allSome_manyTrue]
-    rcases hk with rfl | rfl | rfl | rfl <;>
-      simp [Except.bind, applyList, binaryArithOps, comparisonOps, groupingOps, hp, Except.map]
+  have hp := acc_eq k hk vs hr
+  rw [eval_list c k xs .project hcls (by simp) (by simp) (by simp) hm har hl]
+  rw [hign, hpm, evalList_ok c true xs vs h1, allSome_manyTrue]
+  rcases hk with rfl | rfl | rfl | rfl <;>
+    simp [Except.bind, applyList, binaryArithOps, comparisonOps, groupingOps, hp]
+
+theorem applyStrict_acc (k : String) (hk : k = "$sum" ∨ k = "$avg" ∨ k = "$min" ∨ k = "$max")
+    (vs : List (Option Val)) : applyStrict k vs = (accS k vs).map some := by
+  rcases hk with rfl | rfl | rfl | rfl <;> simp [applyStrict, accOps, datePartOps]
+
+theorem acc_case (c : Ctx) (hign : c.ign = true) (k : String)
+    (hk : k = "$sum" ∨ k = "$avg" ∨ k = "$min" ∨ k = "$max")
+    (xs : List Val) (vs : List (Option Val)) (h1 : xs.map (eval c) = vs.map .ok)
+    (hr : strictReasons k vs = []) (r : Option Val) (hs : applyStrict k vs = .ok r) :
+    eval c (.doc [(k, .arr xs)]) = .ok r := by
+  rw [acc_list_eval c hign k hk xs vs h1 hr, ← applyStrict_acc k hk vs, hs]
 
 /-! ### `{$op: "$path"}`: one operand that is not written as a list -/
 
@@ -214,18 +232,98 @@ theorem acc_mode_str (k : String) (hk : k = "$sum" ∨ k = "$avg" ∨ k = "$min"
     simp [mode, dateOps, datePartOps, wholeOps, unaryArithOps, groupingOps, hasTzKeys]
 
 /-- an operand whose value is an array: the operator ranges over its elements -/
-theorem acc_bare_case (c : Ctx) (hign : c.ign = true) (k : String)
+theorem acc_bare_eval (c : Ctx) (hign : c.ign = true) (k : String)
     (hk : k = "$sum" ∨ k = "$avg" ∨ k = "$min" ∨ k = "$max") (s : String) (ys : List Val)
     (h1 : eval c (.str s) = .ok (some (.arr ys)))
-    (hr : strictReasons k (ys.map some) = []) (w : Val) (hs : accS k (ys.map some) = .ok w) :
-    eval c (.doc [(k, .str s)]) = .ok (some w) := by
+    (hr : strictReasons k (ys.map some) = []) :
+    eval c (.doc [(k, .str s)]) = (accS k (ys.map some)).map some := by
   have hcls : classify k = .project := by rcases hk with rfl | rfl | rfl | rfl <;> decide
-  have hp := acc_pure k hk (ys.map some) hr w hs
+  have hp := acc_eq k hk (ys.map some) hr
   rw [nulled_some] at hp
   rw [eval_whole c k (.str s) .project hcls (by simp) (by simp) (by simp) (acc_mode_str k hk s), h1,
     hign]
   rcases hk with rfl | rfl | rfl | rfl <;>
     simp [Except.bind, applyWhole, unaryArithOps, dateOps, datePartOps, groupingOps,
-      groupingOnValue, hp, Except.map]
+      groupingOnValue, hp]
+
+theorem acc_bare_case (c : Ctx) (hign : c.ign = true) (k : String)
+    (hk : k = "$sum" ∨ k = "$avg" ∨ k = "$min" ∨ k = "$max") (s : String) (ys : List Val)
+    (h1 : eval c (.str s) = .ok (some (.arr ys)))
+    (hr : strictReasons k (ys.map some) = []) (w : Val) (hs : accS k (ys.map some) = .ok w) :
+    eval c (.doc [(k, .str s)]) = .ok (some w) := by
+  rw [acc_bare_eval c hign k hk s ys h1 hr, hs]; rfl
+
+/-- a missing bare operand makes the whole expression missing (finding `accbaremissing`: the rules
+    say 0 for `$sum`, null for the others) -/
+theorem acc_bare_missing (c : Ctx) (k : String)
+    (hk : k = "$sum" ∨ k = "$avg" ∨ k = "$min" ∨ k = "$max") (s : String)
+    (h1 : eval c (.str s) = .ok none) : eval c (.doc [(k, .str s)]) = .ok none := by
+  have hcls : classify k = .project := by rcases hk with rfl | rfl | rfl | rfl <;> decide
+  rw [eval_whole c k (.str s) .project hcls (by simp) (by simp) (by simp) (acc_mode_str k hk s), h1]
+  rcases hk with rfl | rfl | rfl | rfl <;>
+    simp [Except.bind, applyWhole, unaryArithOps, dateOps, datePartOps, groupingOps]
+
+/-! ### what the rules' `$sum` / `$avg` / `$min` / `$max` are -/
+
+theorem numbersOf_skip (v : Option Val) (vs : List (Option Val)) (h : v.bind number = none) :
+    numbersOf (v :: vs) = numbersOf vs := by
+  simp [numbersOf, h]
+
+/-- an operand value that is not a number — null, missing, a boolean, a string, a date, an array,
+    a document — does not change `$sum` nor `$avg` -/
+theorem sumavg_ignores (k : String) (hk : k = "$sum" ∨ k = "$avg") (v : Option Val)
+    (vs : List (Option Val)) (h : v.bind number = none) : accS k (v :: vs) = accS k vs := by
+  rcases hk with rfl | rfl <;> simp [accS, numbersOf_skip v vs h]
+
+theorem sumAll_ints (is : List Int) (a : Int) :
+    sumAll (is.map PyNum.i) (.i a) = .ok (.i (is.foldl (· + ·) a)) := by
+  induction is generalizing a with
+  | nil => rfl
+  | cons i r ih =>
+    simp only [List.map_cons, sumAll, PyNum.add, PyNum.check, bind, Except.bind, List.foldl_cons]
+    exact ih (a + i)
+
+theorem numbersOf_ints (is : List Int) :
+    numbersOf (is.map (fun i => some (Val.int i))) = is.map PyNum.i := by
+  induction is with
+  | nil => rfl
+  | cons i r ih => simp [numbersOf, number, ih]
+
+/-- `$sum` of integers is their integer sum -/
+theorem sum_ints (is : List Int) :
+    accS "$sum" (is.map (fun i => some (Val.int i))) = .ok (.int (is.foldl (· + ·) 0)) := by
+  simp [accS, numbersOf_ints, sumAll_ints, PyNum.toVal, bind, Except.bind]
+
+/-- no number among the values: `$sum` is 0, `$avg` is null -/
+theorem sumavg_none (vs : List (Option Val)) (h : numbersOf vs = []) :
+    accS "$sum" vs = .ok (.int 0) ∧ accS "$avg" vs = .ok .null := by
+  constructor <;> simp [accS, h, sumAll, PyNum.toVal, bind, Except.bind]
+
+/-- no value that is neither null nor missing: `$min` and `$max` are null -/
+theorem minmax_none (k : String) (hk : k = "$min" ∨ k = "$max") (vs : List (Option Val))
+    (h : presentOf vs = []) : accS k vs = .ok .null := by
+  rcases hk with rfl | rfl <;> simp [accS, h]
+
+/-- the extremum is one of the values -/
+theorem extremumS_mem (isMax : Bool) (r : List Val) (best : Val) :
+    extremumS isMax r best ∈ best :: r := by
+  induction r generalizing best with
+  | nil => simp [extremumS]
+  | cons v r ih =>
+    simp only [extremumS]
+    generalize (if isMax = true then ord best v == .lt else ord v best == .lt) = cnd
+    cases cnd
+    · simp only [Bool.false_eq_true, if_false]
+      have := ih best
+      simp only [List.mem_cons] at this ⊢
+      rcases this with h | h
+      · exact Or.inl h
+      · exact Or.inr (Or.inr h)
+    · simp only [if_true]
+      have := ih v
+      simp only [List.mem_cons] at this ⊢
+      rcases this with h | h
+      · exact Or.inr (Or.inl h)
+      · exact Or.inr (Or.inr h)
 
 end MongoModel.Proofs.C04
